@@ -30,11 +30,15 @@ LegacyFaithful == {
   "ann_not_gt",          \* doorpep593: rejects only when the metahint is a STRICT SUPERhint (incomparable passes)
   "call_param_not_gt",   \* doorpep484585callable: rejects only parameters that are STRICT SUPERhints
   "call_args_ign",       \* doorpep484585callable: a branch whose children are all ignorable accepts every callable
+  "call_ign",            \* doorpep484585callable.is_ignorable: Callable[..., Any] counts as ignorable (it is not top)
+  "arity_raises",        \* doorsuper._is_subhint_branch: differing numbers of children raise "undecidable"
+  "tvar_branch_opaque",  \* doorsuper._is_subhint: a TypeVar that is a BRANCH of a union is compared as a whole
   "raw_hash",            \* doorsuper.__hash__: hash of the wrapped hint although __eq__ is semantic
   "kids_not_args"        \* Literal / TypeVar / Callable wrappers: len/iter/[] disagree with .args
 }
 \* the tree with proposed_fixes/C19-*.diff applied
-LegacyFixed == LegacyFaithful \ {"lit_untyped_in", "lit_generic_fallback", "ann_not_gt"}
+LegacyFixed == LegacyFaithful \ {"lit_untyped_in", "lit_generic_fallback", "ann_not_gt", "arity_raises",
+                                    "tvar_branch_opaque"}
 Mutants == {"issubclass_swapped", "union_any_for_all", "lit_ignores_member_types", "tuple_zip_short"}
 
 (* ------------------------------------------------ hint kinds beyond Semantics *)
@@ -66,12 +70,12 @@ Erase(h) ==
 WK(h) ==
   CASE h.k = "any" -> "Any"          [] h.k = "cls" -> "Class"       [] h.k = "newtype" -> "NewType"
     [] h.k = "lit" -> "Literal"      [] h.k = "union" -> "Union"     [] h.k = "tvar" -> "TypeVar"
-    [] h.k = "tupf" -> "TupleFixed"  [] h.k = "seq" /\ h.s = "tuple" -> "TupleVar"
+    [] h.k = "tupf" -> "TupleFixed"  [] h.k = "seq" /\ h.s = "tuple" -> "TupleVariable"
     [] h.k = "ann" -> "Annotated"    [] h.k = "call" -> "Callable"
     [] OTHER -> "Subscripted"        \* list[...], Mapping[...], type[...], Iterator[...], ...
 \* isinstance(wrapper of class w, class c)
 IsA(w, c) == \/ w = c \/ (w = "NewType" /\ c = "Class") \/ (w = "TypeVar" /\ c = "Union")
-             \/ (w = "TupleVar" /\ c = "Subscripted")
+             \/ (w = "TupleVariable" /\ c = "Subscripted")
 
 \* _args_wrapped_tuple: the children that len / iter / [] / in expose
 Kids(h) ==
@@ -143,22 +147,23 @@ OSub(c, d) ==
   ELSE SubCls(c, d) \/ d \in Abcs(c)
 
 \* TypeHint.is_ignorable (sanify_hint_any is HINT_SANE_IGNORABLE; TypeVar and Callable override it)
-RECURSIVE IgnX(_)
-IgnX(h) ==
+RECURSIVE IgnX(_, _)
+IgnX(F, h) ==
   CASE h.k = "any" -> TRUE
     [] h.k = "cls" -> h.s = "object"
-    [] h.k = "union" -> \E i \in DOMAIN h.a : IgnX(h.a[i])
-    [] h.k = "tvar" -> \A i \in DOMAIN Kids(h) : IgnX(Kids(h)[i])
-    [] h.k = "call" -> h.s = "ellipsis" /\ IgnX(h.a[Len(h.a)])
+    [] h.k = "union" -> \E i \in DOMAIN h.a : IgnX(F, h.a[i])
+    [] h.k = "tvar" -> \A i \in DOMAIN Kids(h) : IgnX(F, Kids(h)[i])
+    [] h.k = "call" -> "call_ign" \in F /\ h.s = "ellipsis" /\ IgnX(F, h.a[Len(h.a)])
     [] OTHER -> FALSE
 \* _is_args_ignorable
-ArgsIgn(h) ==
+ArgsIgn(F, h) ==
   CASE WK(h) \in {"Any", "Class", "NewType"} -> TRUE
     [] WK(h) \in {"Literal", "Annotated", "TupleFixed"} -> FALSE
-    [] OTHER -> \A i \in DOMAIN Kids(h) : IgnX(Kids(h)[i])
+    [] WK(h) = "Callable" /\ "call_args_ign" \notin F -> h.s = "ellipsis" /\ IgnX(F, h.a[Len(h.a)])
+    [] OTHER -> \A i \in DOMAIN Kids(h) : IgnX(F, Kids(h)[i])
 
 \* the hint sign as far as SubscriptedTypeHint._is_equal compares it
-Sign(h) == IF WK(h) \in {"Subscripted", "TupleVar"} THEN Origin(h) ELSE "sign:" \o WK(h)
+Sign(h) == IF WK(h) \in {"Subscripted", "TupleVariable"} THEN Origin(h) ELSE "sign:" \o WK(h)
 
 (* ----------------------------------------------------- three-valued logic *)
 B3(b) == IF b THEN "T" ELSE "F"
@@ -181,7 +186,7 @@ RECURSIVE IsSub(_, _, _), DoSub(_, _, _), Loop(_, _, _), Branch(_, _, _), DefBra
 \* doorsuper.TypeHint.is_subhint
 IsSub(F, a, b) ==
   IF b.k = "any" THEN "T"
-  ELSE IF a.k = "any" THEN (IF "any_bottom" \in F \/ IgnX(b) THEN "T" ELSE "F")
+  ELSE IF a.k = "any" THEN (IF "any_bottom" \in F \/ IgnX(F, b) THEN "T" ELSE "F")
   ELSE DoSub(F, a, b)
 
 \* _is_subhint: UnionTypeHint (and TypeVarTypeHint), LiteralTypeHint, default
@@ -199,7 +204,9 @@ DoSub(F, a, b) ==
 \* doorsuper._is_subhint: some branch of the other hint is Any or accepts this hint
 Loop(F, a, b) ==
   LET bs == Branches(b) IN
-  AnyV([j \in DOMAIN bs |-> IF bs[j].k = "any" THEN "T" ELSE Branch(F, a, bs[j])])
+  AnyV([j \in DOMAIN bs |-> IF bs[j].k = "any" THEN "T"
+                            ELSE IF WK(bs[j]) = "TypeVar" /\ "tvar_branch_opaque" \notin F THEN IsSub(F, a, bs[j])
+                            ELSE Branch(F, a, bs[j])])
 
 \* doorpep586.LiteralTypeHint._is_subhint
 LitSub(F, a, b) ==
@@ -220,9 +227,9 @@ LitSub(F, a, b) ==
 \* doorsuper.TypeHint._is_subhint_branch (SubscriptedTypeHint, TupleVariableTypeHint; LiteralTypeHint inherits it)
 DefBranch(F, a, br) ==
   IF ~(IF "issubclass_swapped" \in F THEN OSub(Origin(br), Origin(a)) ELSE OSub(Origin(a), Origin(br))) THEN "F"
-  ELSE IF ArgsIgn(br) THEN "T"
+  ELSE IF ArgsIgn(F, br) THEN "T"
   ELSE IF ~IsA(WK(br), WK(a)) THEN "F"
-  ELSE IF Len(Kids(a)) # Len(Kids(br)) THEN "X"
+  ELSE IF Len(Kids(a)) # Len(Kids(br)) THEN (IF "arity_raises" \in F THEN "X" ELSE "F")
   ELSE AllV([i \in DOMAIN Kids(a) |-> IsSub(F, Kids(a)[i], Kids(br)[i])])
 
 \* x > y on wrappers: x.is_superhint(y) and x != y
@@ -232,11 +239,11 @@ Gt(F, x, y) ==
 
 Branch(F, a, br) ==
   CASE WK(a) = "Any" -> "F"                                     \* doorpep484any
-    [] IsA(WK(a), "Class") -> B3(ArgsIgn(br) /\ OSub(Origin(a), Origin(br)))      \* doorpep484class
+    [] IsA(WK(a), "Class") -> B3(ArgsIgn(F, br) /\ OSub(Origin(a), Origin(br)))      \* doorpep484class
     [] WK(a) = "TupleFixed" ->                                  \* doorpep484585tuple
          LET ka == Kids(a)  kb == Kids(br) IN
-         IF ArgsIgn(br) THEN B3(OSub("tuple", Origin(br)))
-         ELSE IF WK(br) = "TupleVar" THEN AllV([i \in DOMAIN ka |-> IsSub(F, ka[i], kb[1])])
+         IF ArgsIgn(F, br) THEN B3(OSub("tuple", Origin(br)))
+         ELSE IF WK(br) = "TupleVariable" THEN AllV([i \in DOMAIN ka |-> IsSub(F, ka[i], kb[1])])
          ELSE IF WK(br) # "TupleFixed" THEN "F"
          ELSE IF Len(ka) # Len(kb) THEN (IF "tuple_zip_short" \in F /\ Len(ka) < Len(kb)
                                          THEN AllV([i \in DOMAIN ka |-> IsSub(F, ka[i], kb[i])]) ELSE "F")
@@ -254,24 +261,25 @@ Branch(F, a, br) ==
          LET ka == Kids(a)   kb == Kids(br)
              pa == SubSeq(ka, 1, Len(ka) - 1)   pb == SubSeq(kb, 1, Len(kb) - 1)
              ra == ka[Len(ka)]                  rb == kb[Len(kb)]
-             ret == IF IgnX(rb) THEN "T" ELSE IF IgnX(ra) THEN "F" ELSE IsSub(F, ra, rb) IN
-         IF (IF "call_args_ign" \in F THEN ArgsIgn(br) ELSE WK(br) # "Callable" /\ ArgsIgn(br))
-         THEN B3(OSub("Callable", Origin(br)))
+             ret == IF IgnX(F, rb) THEN "T" ELSE IF IgnX(F, ra) THEN "F" ELSE IsSub(F, ra, rb) IN
+         IF ArgsIgn(F, br) THEN B3(OSub("Callable", Origin(br)))
          ELSE IF WK(br) # "Callable" THEN "F"
          ELSE IF br.s = "ellipsis" THEN ret
          ELSE IF a.s = "ellipsis" \/ Len(pa) # Len(pb) THEN "F"
          ELSE IF "call_param_not_gt" \in F
          THEN LET g == AnyV([i \in DOMAIN pa |-> Gt(F, pa[i], pb[i])]) IN
               IF g = "X" THEN "X" ELSE IF g = "T" THEN "F" ELSE ret
-         ELSE LET c == AllV([i \in DOMAIN pa |-> IsSub(F, pb[i], pa[i])]) IN      \* contravariant
-              IF c # "T" THEN c ELSE ret
+         ELSE LET qa == SubSeq(a.a, 1, Len(a.a) - 1)   qb == SubSeq(br.a, 1, Len(br.a) - 1) IN   \* as written
+              IF Len(qa) # Len(qb) THEN "F"
+              ELSE LET c == AllV([i \in DOMAIN qa |-> IsSub(F, qb[i], qa[i])]) IN      \* contravariant
+                   IF c # "T" THEN c ELSE ret
     [] IsA(WK(a), "Union") -> Assert(FALSE, "UnionTypeHint._is_subhint_branch is unreachable")
     [] OTHER -> DefBranch(F, a, br)
 
 \* __eq__ -> _is_equal (SubscriptedTypeHint and AnnotatedTypeHint override the mutual-subhint default)
 EqH(F, x, y) ==
-  CASE WK(x) \in {"Subscripted", "TupleVar"} ->
-         IF ArgsIgn(x) /\ ArgsIgn(y) THEN B3(Origin(x) = Origin(y))
+  CASE WK(x) \in {"Subscripted", "TupleVariable"} ->
+         IF ArgsIgn(F, x) /\ ArgsIgn(F, y) THEN B3(Origin(x) = Origin(y))
          ELSE IF Sign(x) # Sign(y) \/ Len(Kids(x)) # Len(Kids(y)) THEN "F"
          ELSE AllV([i \in DOMAIN Kids(x) |-> EqH(F, Kids(x)[i], Kids(y)[i])])
     [] WK(x) = "Annotated" ->
